@@ -52,7 +52,8 @@ def main(argv=None):
     evid_dir = os.environ.get('PYVC_EVIDENCE_DIR') or os.path.join(
         HERE, 'evidence')
     os.makedirs(evid_dir, exist_ok=True)
-    rep_dir = os.path.join(HERE, 'replays', pid)
+    rep_dir = os.path.join(os.environ.get(
+        'PYVC_REPLAY_DIR', os.path.join(HERE, 'replays')), pid)
     os.makedirs(rep_dir, exist_ok=True)
     for f in os.listdir(rep_dir):
         os.unlink(os.path.join(rep_dir, f))
@@ -317,6 +318,7 @@ def run_mutants(pid):
             open(path, 'w', newline='').write(src.replace(o2, n2, 1))
             env = dict(os.environ, YALAFI_REPO=tmp, PYVC_NO_MUTANTS='1',
                        PYVC_EVIDENCE_DIR=os.path.join(tmp, 'ev'),
+                       PYVC_REPLAY_DIR=os.path.join(tmp, 'rp'),
                        VERIF_TIER='quick')
             r = subprocess.run([os.path.join(HERE, 'check'), pid, '--tier',
                                 'quick'], env=env, capture_output=True,
@@ -324,6 +326,46 @@ def run_mutants(pid):
             viol = [l for l in r.stdout.splitlines()
                     if l.startswith('VIOLATION')]
             out.append({'change': '%s: %r -> %r' % (rel, old[:40], new[:40]),
+                        'killed': r.returncode == 1 and bool(viol),
+                        'exit': r.returncode,
+                        'first_violation': (viol[0].split('obligation=')[-1]
+                                            [:160] if viol else None)})
+        finally:
+            shutil.rmtree(tmp, ignore_errors=True)
+    # the seeded changes kept under /verif/seeded (written by sub-agents
+    # that saw only the property text): the patch whose meta.json names this
+    # property must be caught as well
+    sd = os.path.join(HERE, 'seeded')
+    for d in sorted(os.listdir(sd)) if os.path.isdir(sd) else []:
+        mp = os.path.join(sd, d, 'meta.json')
+        pp = os.path.join(sd, d, 'patch.diff')
+        if not (os.path.exists(mp) and os.path.exists(pp)):
+            continue
+        meta = json.load(open(mp))
+        if pid not in meta.get('detected_by', {}):
+            continue
+        tmp = tempfile.mkdtemp(prefix='yalafi_mut_')
+        try:
+            shutil.copytree(os.path.join(front.REPO, 'yalafi'),
+                            os.path.join(tmp, 'yalafi'))
+            a = subprocess.run(['git', 'apply', pp], cwd=tmp,
+                               capture_output=True, text=True)
+            if a.returncode != 0:
+                out.append({'change': 'seeded/%s/patch.diff' % d,
+                            'killed': False,
+                            'note': 'patch does not apply: ' +
+                            a.stderr[:120]})
+                continue
+            env = dict(os.environ, YALAFI_REPO=tmp, PYVC_NO_MUTANTS='1',
+                       PYVC_EVIDENCE_DIR=os.path.join(tmp, 'ev'),
+                       PYVC_REPLAY_DIR=os.path.join(tmp, 'rp'),
+                       VERIF_TIER='quick')
+            r = subprocess.run([os.path.join(HERE, 'check'), pid, '--tier',
+                                'quick'], env=env, capture_output=True,
+                               text=True)
+            viol = [l for l in r.stdout.splitlines()
+                    if l.startswith('VIOLATION')]
+            out.append({'change': 'seeded/%s/patch.diff' % d,
                         'killed': r.returncode == 1 and bool(viol),
                         'exit': r.returncode,
                         'first_violation': (viol[0].split('obligation=')[-1]
